@@ -1306,7 +1306,17 @@ class Engine:
         k, spec = self.loop_spec(s)
         if spec is None:
             raise Unsupported('for loop #{} over a symbolic iterable without invariant (line {})'.format(k, s.lineno))
-        if isinstance(it, VRange):
+        if isinstance(it, VRange) and not isinstance(it.step, int) and 'niter' in spec:
+            # range(lo, hi, step) with a symbolic step: the contract names the number of iterations; that it is the right
+            # one (ceil((hi-lo)/step) for a positive step) is an obligation, stated without division
+            step = toz(it.step)
+            lo, hi = toz(it.lo), toz(it.hi)
+            niter = toz(self.spec_eval(spec['niter'], env))
+            self.oblige('hint', 'range step is positive and the loop makes [{}] iterations'.format(spec['niter']),
+                        z3.And(step > 0, niter >= 0, lo + niter * step >= hi, z3.Or(niter == 0, lo + (niter - 1) * step < hi)),
+                        s.lineno, decisive=False)
+            elem = lambda i: lo + i * step
+        elif isinstance(it, VRange):
             step = it.step
             if not isinstance(step, int) or step == 0:
                 raise Unsupported('symbolic range step')
@@ -1907,6 +1917,9 @@ class Engine:
         ch = self.match_implchain(e, env)
         if ch is not None:
             return ch
+        ch = self.match_liftcls(e, env)
+        if ch is not None:
+            return ch
         if isinstance(g.iter, ast.Call) and len(g.iter.args) == 1 and isinstance(g.iter.args[0], ast.Starred) and not g.iter.keywords \
                 and isinstance(g.target, ast.Name):
             fn = self.eval(g.iter.func, env)
@@ -2049,6 +2062,30 @@ class Engine:
             if src == g.target.id:
                 return it
         raise Unsupported('comprehension over {!r} (line {})'.format(it, e.lineno))
+
+    def match_liftcls(self, e, env):
+        """[[-(Y + i), s*(X + i)] for i in range(1, k+1)]  with loop-free ints Y, X, s, k: the spec term liftcls(X, Y, k, s)"""
+        g = e.generators[0]
+        if not (isinstance(g.target, ast.Name) and isinstance(e.elt, ast.List) and len(e.elt.elts) == 2):
+            return None
+        i = g.target.id
+        a, b = e.elt.elts
+        if not (isinstance(a, ast.UnaryOp) and isinstance(a.op, ast.USub) and isinstance(a.operand, ast.BinOp) and isinstance(a.operand.op, ast.Add)
+                and isinstance(a.operand.right, ast.Name) and a.operand.right.id == i
+                and isinstance(b, ast.BinOp) and isinstance(b.op, ast.Mult) and isinstance(b.right, ast.BinOp) and isinstance(b.right.op, ast.Add)
+                and isinstance(b.right.right, ast.Name) and b.right.right.id == i):
+            return None
+        if not (isinstance(g.iter, ast.Call) and isinstance(g.iter.func, ast.Name) and g.iter.func.id == 'range' and len(g.iter.args) == 2
+                and ast.unparse(g.iter.args[0]) == '1' and isinstance(g.iter.args[1], ast.BinOp) and isinstance(g.iter.args[1].op, ast.Add)
+                and ast.unparse(g.iter.args[1].right) == '1') or 'range' in env:
+            return None
+        used = {n.id for part in (a.operand.left, b.left, b.right.left, g.iter.args[1].left) for n in ast.walk(part) if isinstance(n, ast.Name)}
+        if i in used:
+            return None
+        yo, sg, xo, k = (self.eval(x, env) for x in (a.operand.left, b.left, b.right.left, g.iter.args[1].left))
+        if not all(isinstance(x, int) or (is_z3(x) and z3.is_int(x)) for x in (yo, sg, xo, k)):
+            return None
+        return VSeq(specs.liftcls(toz(xo), toz(yo), toz(k), toz(sg)))
 
     def match_implchain(self, e, env):
         """[[-X[i-1], X[i]] for i in range(1, len(X))]  over an abstract literal list X: the chain X[0] -> X[1] -> ... as
@@ -2777,6 +2814,7 @@ def sf_trace(eng, node, v):
 
 
 SPEC_FUNCS = {
+    'liftcls': _wrap(specs.liftcls), 'liftsem': _wrap(specs.liftsem), 'yblock': _wrap(specs.yblock),
     'implchain': _wrap(specs.implchain),
     'ev': sf_ev, 'trace': sf_trace, 'tid': lambda eng, node, t: z3.IntVal(template_id(normalize_template(t, 0, [])[0])),
     'oget': _wrap(specs.oget),
